@@ -578,9 +578,11 @@ func ParseContracts(P *Program) (*Contracts, error) {
 					return nil, fmt.Errorf("%s: ghost needs initial value", pos)
 				}
 				f := strings.Fields(rest[:k])
-				if len(f) != 2 {
+				if len(f) < 2 {
 					return nil, fmt.Errorf("%s: ghost name type = expr", pos)
 				}
+				// the type may contain blanks (<-chan struct{})
+				f = []string{f[0], strings.Join(f[1:], " ")}
 				e, err := ParseExpr(rest[k+1:])
 				if err != nil {
 					return nil, fmt.Errorf("%s: %v", pos, err)
